@@ -10,13 +10,24 @@
                       to providers, equal [calls];   good s : nerr s = 0 /\ oof s = false;
      mrel R m1 m2     from related states, if BOTH computations end in good states, the results are R-related
                       and the final states are related;
-     W_lo W1 W2       worlds equal except: environments are related programs, PConst outputs lo_equiv,
+     W_lo W1 W2       worlds equal except: environments are related programs, PConst outputs lo_equiv (SAME SHAPE),
                       decrypters succeed on the same inputs (any plaintexts);
-     x_lo x1 x2       expressions equal except the texts of ESecretPlain; NO fn::fromJSON. *)
+     x_free v1 v2     (Proofs/NonInterferenceShape.v) exported values equal outside the nodes flagged secret; a node flagged
+                      secret is related to ANY node flagged secret: other keys, other lengths, scalar versus composite;
+     Wfree W1 W2      like W_lo, with PConst outputs x_free: the worlds "differ only in secret plaintexts" of the property;
+     C03.shape_class W1 W2   decidable: some PConst output differs in shape ([C03.same_shape]) between the two tables;
+     x_lo x1 x2       expressions equal except the texts of ESecretPlain; NO fn::fromJSON.
+
+   Renderings: Value.ToJSON(true) is [x_redact_json], Value.ToString(true) is [x_redact_string]; of the environment-variable
+   renderings only the plain `k=v` form of prepare.go (quote=false, shell=false) is MODELLED ([env_vars_redacted],
+   [temp_files_redacted]).  The dotenv (`k="v"`) and shell (`export k='v'`) forms differ from it by a quoting function
+   applied to the same (flag, text) pairs; they are not restated in Coq - the correspondence compares them byte for byte
+   on the implementation through the CLI's own PrepareEnvironment (Redact with Quote / Quote+Shell) in every case. *)
 From Verif Require Import Base.Bytes Model.Chain Model.GoText Model.Envelope Model.Eval Model.Redact.
 From Verif Require Import Proofs.NonInterferenceRel Proofs.NonInterferenceOps Proofs.NonInterferenceTwins
      Proofs.NonInterferenceMono Proofs.NonInterferenceBuiltins Proofs.NonInterferenceEval
-     Proofs.NonInterferenceMain Proofs.NonInterferenceExamples.
+     Proofs.NonInterferenceMain Proofs.NonInterferenceExamples Proofs.NonInterferenceShape.
+From Verif Require Corr.C03.
 
 Notation lo_c := (Forall2 lo_l).
 
@@ -27,6 +38,8 @@ Proof. exact redact_lo_equiv. Qed.
 Theorem C03_redact_string : forall v1 v2, lo_equiv v1 v2 -> x_redact_string v1 = x_redact_string v2.
 Proof. exact redact_string_lo_equiv. Qed.
 
+(* the plain `k=v` lines only (prepare.go getEnvironmentVariables with quote=false, shell=false, redact=true); the
+   dotenv and shell forms are exercised on the implementation, not modelled (see the header) *)
 Theorem C03_redact_env_vars : forall v1 v2, lo_strict v1 v2 -> env_vars_redacted v1 = env_vars_redacted v2.
 Proof. exact env_vars_redacted_lo_strict. Qed.
 
@@ -168,10 +181,11 @@ Theorem C03_env_noninterference : forall W1 W2 fuel root name d1 d2 s1 s2,
   nerr (snd r1) = nerr (snd r2) /\ calls (snd r1) = calls (snd r2) /\ oof (snd r1) = oof (snd r2).
 Proof. exact noninterference_states. Qed.
 
-(* the full intended statement: ALL programs (fn::fromJSON included) *)
+(* the full intended statement: ALL programs (fn::fromJSON included) and two worlds that differ only in secret plaintexts,
+   of ANY shape ([Wfree true]: a provider output flagged secret may be any other value flagged secret) *)
 Definition C03_noninterference_statement : Prop :=
   forall W1 W2 fuel name d1 d2,
-    Wg_lo true W1 W2 -> envg_lo true d1 d2 ->
+    Wfree true W1 W2 -> envg_lo true d1 d2 ->
     ob_errors (run fuel W1 name d1) = false -> ob_oof (run fuel W1 name d1) = false ->
     ob_errors (run fuel W2 name d2) = false -> ob_oof (run fuel W2 name d2) = false ->
     exists v1 v2,
@@ -181,23 +195,66 @@ Definition C03_noninterference_statement : Prop :=
       env_vars_redacted v1 = env_vars_redacted v2 /\ temp_files_redacted v1 = temp_files_redacted v2 /\
       Forall2 ev_lo (ob_log (run fuel W1 name d1)) (ob_log (run fuel W2 name d2)).
 
-(* it is false of the model (and of the implementation): fn::fromJSON of a secret document "null" vs "1" *)
+(* it is false of the model (and of the implementation), for two independent reasons *)
 Theorem C03_noninterference_refuted : ~ C03_noninterference_statement.
+Proof. exact noninterference_full_refuted. Qed.
+
+(* reason 1, secrets of the SAME shape: fn::fromJSON of a secret document "null" vs "1" (known finding C03-fromjson-null) *)
+Theorem C03_noninterference_fromjson_refuted :
+  ~ (forall W1 W2 fuel name d1 d2,
+       Wg_lo true W1 W2 -> envg_lo true d1 d2 ->
+       ob_errors (run fuel W1 name d1) = false -> ob_oof (run fuel W1 name d1) = false ->
+       ob_errors (run fuel W2 name d2) = false -> ob_oof (run fuel W2 name d2) = false ->
+       ni_conclusion (run fuel W1 name d1) (run fuel W2 name d2)).
 Proof. exact noninterference_refuted. Qed.
 
-(* proved: every program without fn::fromJSON — imports, providers, decryption, all other builtins included *)
+(* reason 2, NO fn::fromJSON: the SHAPE of a secret payload (known finding C03-secret-shape).  A provider returns the
+   secret object {j: v} in one world and {k: v} in the other; the importer merges {extra: x} over it; both runs succeed;
+   the redacted JSON renderings are {"cfg":{"extra":"x","j":"[secret]"}} and {"cfg":{"extra":"x","k":"[secret]"}}:
+   the keys of a secret composite are part of its plaintext and are shown.  Reproduced on eval.EvalEnvironment. *)
+Theorem C03_noninterference_shape_refuted :
+  ~ (forall W1 W2 fuel name d1 d2,
+       Wfree false W1 W2 -> env_lo d1 d2 ->
+       ob_errors (run fuel W1 name d1) = false -> ob_oof (run fuel W1 name d1) = false ->
+       ob_errors (run fuel W2 name d2) = false -> ob_oof (run fuel W2 name d2) = false ->
+       ni_conclusion (run fuel W1 name d1) (run fuel W2 name d2)).
+Proof. exact noninterference_shape_refuted. Qed.
+
+(* proved: every program without fn::fromJSON - imports, providers, decryption, all other builtins included - and every
+   pair of worlds that differ only in secret plaintexts, OUTSIDE the decidable class [C03.shape_class] (some constant
+   provider output has another shape in the second world).  Both restrictions are necessary (the two refutations). *)
 Theorem C03_noninterference_partial :
+  forall W1 W2 fuel name d1 d2,
+    Wfree false W1 W2 -> C03.shape_class W1 W2 = false -> env_lo d1 d2 ->
+    ob_errors (run fuel W1 name d1) = false -> ob_oof (run fuel W1 name d1) = false ->
+    ob_errors (run fuel W2 name d2) = false -> ob_oof (run fuel W2 name d2) = false ->
+    exists v1 v2,
+      ob_value (run fuel W1 name d1) = Some v1 /\ ob_value (run fuel W2 name d2) = Some v2 /\
+      lo_strict v1 v2 /\ lo_equiv v1 v2 /\
+      x_redact_json v1 = x_redact_json v2 /\ x_redact_string v1 = x_redact_string v2 /\
+      env_vars_redacted v1 = env_vars_redacted v2 /\ temp_files_redacted v1 = temp_files_redacted v2 /\
+      Forall2 ev_lo (ob_log (run fuel W1 name d1)) (ob_log (run fuel W2 name d2)).
+Proof. exact noninterference_shape_partial. Qed.
+
+(* the same theorem in terms of the relation the proof works with: [W_lo] IS [Wfree] outside the class *)
+Theorem C03_noninterference_lo_partial :
   forall W1 W2 fuel name d1 d2,
     W_lo W1 W2 -> env_lo d1 d2 ->
     ob_errors (run fuel W1 name d1) = false -> ob_oof (run fuel W1 name d1) = false ->
     ob_errors (run fuel W2 name d2) = false -> ob_oof (run fuel W2 name d2) = false ->
-    exists v1 v2,
-      ob_value (run fuel W1 name d1) = Some v1 /\ ob_value (run fuel W2 name d2) = Some v2 /\
-      lo_strict v1 v2 /\ lo_equiv v1 v2 /\
-      x_redact_json v1 = x_redact_json v2 /\ x_redact_string v1 = x_redact_string v2 /\
-      env_vars_redacted v1 = env_vars_redacted v2 /\ temp_files_redacted v1 = temp_files_redacted v2 /\
-      Forall2 ev_lo (ob_log (run fuel W1 name d1)) (ob_log (run fuel W2 name d2)).
+    ni_conclusion (run fuel W1 name d1) (run fuel W2 name d2).
 Proof. exact noninterference_partial. Qed.
+
+Theorem C03_Wfree_outside_class_is_W_lo : forall fj W1 W2,
+  Wfree fj W1 W2 -> C03.shape_class W1 W2 = false -> Wg_lo fj W1 W2.
+Proof. exact Wfree_lo. Qed.
+
+Theorem C03_W_lo_is_Wfree : forall fj W1 W2, Wg_lo fj W1 W2 -> Wfree fj W1 W2.
+Proof. exact Wlo_free. Qed.
+
+(* value level: two values that differ only below secret flags and have the same shape are low-equivalent *)
+Theorem C03_free_same_shape_lo_equiv : forall v1 v2, x_free v1 v2 -> C03.same_shape v1 v2 = true -> lo_equiv v1 v2.
+Proof. exact free_shape_lo. Qed.
 
 (* ---------------- examples ---------------- *)
 (* the hypotheses are satisfiable on non-trivial data: different static secret, provider payloads and decrypter;
@@ -213,6 +270,13 @@ Example C03_hypotheses_satisfiable :
   W_lo (W_demo "tiger" "u" (Some "a")) (W_demo "lion" "root" (Some "b")) /\
   env_lo (d_demo false "hunter2") (d_demo false "correct horse").
 Proof. exact (conj (W_demo_lo _ _ _ _ _ _) (d_demo_lo _ _)). Qed.
+
+(* ... and so are those of the main theorem: worlds that differ in secret plaintexts, outside the shape class *)
+Example C03_partial_hypotheses_satisfiable :
+  Wfree false (W_demo "tiger" "u" (Some "a")) (W_demo "lion" "root" (Some "b")) /\
+  C03.shape_class (W_demo "tiger" "u" (Some "a")) (W_demo "lion" "root" (Some "b")) = false /\
+  env_lo (d_demo false "hunter2") (d_demo false "correct horse").
+Proof. exact (conj (Wlo_free _ _ _ (W_demo_lo _ _ _ _ _ _)) (conj eq_refl (d_demo_lo _ _))). Qed.
 
 (* flag soundness by computation: one secret through interpolation, join, toJSON -> fromJSON, base64 both ways,
    toString, property access into a provider's secret composite, and an object merged over that composite *)
@@ -241,7 +305,19 @@ Example C03_fromjson_null_flag_refuted :
   option_map x_has_secret (ob_value o) = Some false.
 Proof. exact fromjson_null_flag_refuted. Qed.
 
-(* the shape below a secret node is observable: keys of a secret object after a merge *)
+(* the shape below a secret node is observable: keys of a secret object after a merge (the witness of
+   C03_noninterference_shape_refuted, computed); the pair is inside the class *)
+Example C03_shape_witness_in_class : C03.shape_class (W_shape "j") (W_shape "k") = true.
+Proof. exact W_shape_in_class. Qed.
+
+Example C03_scalar_vs_composite_leaks :
+  let o1 := run 40 (W_payload (XScalar true false (SStr "v"))) "main" d_merge in
+  let o2 := run 40 (W_payload (XObj true false [("k", XScalar false false (SStr "v"))])) "main" d_merge in
+  ob_errors o1 = false /\ ob_oof o1 = false /\ ob_errors o2 = false /\ ob_oof o2 = false /\
+  option_map x_redact_json (ob_value o1) = Some (JObj [("cfg", JObj [("extra", JStr "x")])]) /\
+  option_map x_redact_json (ob_value o2) = Some (JObj [("cfg", JObj [("extra", JStr "x"); ("k", JStr "[secret]")])]).
+Proof. exact scalar_vs_composite_leaks. Qed.
+
 Example C03_shape_below_secret_matters :
   let o1 := run 40 (W_shape "j") "main" d_merge in
   let o2 := run 40 (W_shape "k") "main" d_merge in
@@ -251,6 +327,16 @@ Example C03_shape_below_secret_matters :
   option_map x_redact_json (ob_value o2) =
     Some (JObj [("cfg", JObj [("extra", JStr "x"); ("k", JStr "[secret]")])]).
 Proof. exact shape_below_secret_matters. Qed.
+
+(* the class the ORACLE uses for C03-fromjson-null (Corr/C03.v known_null) is narrower than "the program mentions
+   fn::fromJSON": the argument must be able to carry a secret (it mentions a static secret, a ciphertext, a provider or a
+   reference), in the root or in any environment the loader serves.  The theorem above still excludes every fn::fromJSON. *)
+Example C03_fromjson_class_narrowed :
+  C03.fromjson_of_secret W_plain d_fj_public = false
+  /\ C03.fromjson_of_secret W_plain (d_fromjson "null") = true
+  /\ C03.fromjson_of_secret W_plain d_fj_ref = true
+  /\ C03.fromjson_of_secret W_fj_import {| ed_imports := [("base", true)]; ed_values := [] |} = true.
+Proof. exact fromjson_class_narrowed. Qed.
 
 Example C03_fromjson_keys_leak :
   let o1 := run 40 (W_json "{""j"":1}") "main" d_merge in
